@@ -83,7 +83,9 @@ def forwarding(ctx, g: FuncInfo, target: FuncInfo, remap_ok: tuple = ()) -> list
             if isinstance(passed, ast.Name) and passed.id == p:
                 continue
             # boolean forwarded by branching on it and passing the literal
-            tests = [(t, lab) for t, lab in controlling_tests(cfg, n) if isinstance(t.ast, ast.Name) and t.ast.id == p]
+            from .discharge import controlling_conditions
+
+            tests = [(e_, "t" if truth else "f") for e_, truth, _t in controlling_conditions(cfg, n) if isinstance(e_, ast.Name) and e_.id == p]
             if tests:
                 lab = tests[0][1]
                 if lab == "t" and passed is not None and is_const(passed, True):
